@@ -11,3 +11,8 @@ check("C12", "other",
       "Three-way bounded symbolic verification per expression shape: real iteration callable (under symx), SMT semantics of the "
       "real SQL translation, and an independent evaluator agree for all rows/literals in the value box; ranges enumerated over "
       "a (start,stop,step) box with symbolic tested value; counterexamples replayed on SQLite.", BSV + " and the sqlmodel SQL semantics", "3/C12")
+check("C06", "other",
+      "Bounded symbolic verification: applied_min_rows/applied_max_rows/is_join_identity/is_trivial are executed on symbolic "
+      "declared leaf bounds (unbounded integers) for all programs up to the stated depth in both engines; z3 decides "
+      "min_rows <= count <= max_rows, column sets and flag implications against direct evaluation over symbolic leaf tables.",
+      BSV, "3/C06")
